@@ -1,9 +1,12 @@
 import RxGen.Kernels
 import RxModel.PyVal
+import RxModel.Props.C20
+import RxModel.Lemmas.PlainDerived
 /-!
 # C10 link theorems: the model's `distinct_until_changed` is the stage list generated from
 `rxsci/operators/distinct_until_changed.py` (`scan(_distinct, seed=(None, None, None)) | filter | map`),
-for a given key mapper and for `key_mapper=None`.
+for a given key mapper and for `key_mapper=None`; and `Link_batch`: the stage list generated from `rxsci/data/batch.py`, whose
+scan state is a Python tuple `(list, flag)`, emits item by item what the model's typed `batchG` emits (a state-map simulation).
 -/
 namespace Rx
 
@@ -47,5 +50,116 @@ theorem Link_duc_none : genPipe (Gen.duc_stages none) = D.duc (fun v => .ok v) :
   simp only [genPipe, Gen.duc_stages, List.map, List.cons_append, List.nil_append, GStage.toStage, D.duc, Option.map,
     gen_duc_accumulate_none, gen_duc_changed, gen_duc_item]
   rfl
+
+/-! ## batch -/
+/-- the scan state of the model's `batch` as the Python tuple the generated accumulator works on -/
+def encB (s : List Val × Bool) : Val := Val.tup [Val.lst s.1, .bool s.2]
+
+theorem nth0_encB (s : List Val × Bool) : (encB s).nth 0 = Val.lst s.1 := by
+  simp [encB, Val.nth, Val.elems, Val.tup, VList.ofList, VList.toList]
+theorem nth1_encB (s : List Val × Bool) : (encB s).nth 1 = .bool s.2 := by
+  simp [encB, Val.nth, Val.elems, Val.tup, VList.ofList, VList.toList]
+
+theorem len_lst (l : List Val) : (PyAlg.len (Val.lst l) : Except Err Val) = .ok (.int l.length) := by
+  show Val.lenV _ = _
+  simp [Val.lenV, Val.lst, Val.elems, VList.toList_ofList]
+
+theorem ok_bind2 {ε α β} (a : α) (f : α → Except ε β) : (Except.ok a >>= f) = f a := rfl
+
+theorem int_beq_nat (a b : Nat) : (Val.int ((a : Int)) == Val.int (b : Int)) = (a == b) := by
+  by_cases h : a = b
+  · subst h; simp
+  · have h2 : ¬ ((a : Int) = (b : Int)) := by omega
+    have h3 : (a == b) = false := by simpa using h
+    rw [h3]
+    simpa using h2
+
+theorem gen_batch_accumulate (n : Nat) (s : List Val × Bool) (i : Val) :
+    Gen.batch_accumulate (V := Val) (.int n) (encB s) i = .ok (encB (batchAcc n s i)) := by
+  obtain ⟨b, f⟩ := s
+  cases f
+  · simp only [Gen.batch_accumulate, PyAlg.nth, nth1_encB, nth0_encB, PyAlg.isTrue, Val.isTrue]
+    have happ : (PyAlg.append (Val.lst b) i : Except Err Val) = .ok (Val.lst (b ++ [i])) := by
+      simp [PyAlg.append, toListAcc, Val.lst, VList.toList_ofList]
+    simp [happ, ok_bind2, len_lst, PyAlg.eq, PyAlg.tup, PyAlg.bool, batchAcc, encB]
+    have := int_beq_nat (b.length + 1) n
+    simp only [Int.natCast_add, Int.natCast_one] at this
+    simp [Functor.map, Except.map, this]
+  · simp only [Gen.batch_accumulate, PyAlg.nth, nth1_encB, nth0_encB, PyAlg.isTrue, Val.isTrue]
+    simp [ok_bind2, len_lst, PyAlg.eq, PyAlg.tup, PyAlg.bool, PyAlg.lst, batchAcc, encB]
+    have := int_beq_nat 1 n
+    simp only [Int.natCast_one] at this
+    simp [Functor.map, Except.map, this]
+
+theorem lt_int_nat (a b : Nat) : (PyAlg.lt (Val.int (a : Int)) (Val.int (b : Int)) : Except Err Bool) = .ok (decide (a < b)) := by
+  show Val.lt _ _ = _
+  simp [Val.lt, Val.toInt?]
+
+theorem gen_batch_terminate (s : List Val × Bool) :
+    Gen.batch_terminate (V := Val) (encB s) = .ok (encB (batchTerm s)) := by
+  obtain ⟨b, f⟩ := s
+  have hl := lt_int_nat 0 b.length
+  simp only [Int.natCast_zero] at hl
+  simp only [Gen.batch_terminate, PyAlg.nth, nth1_encB, nth0_encB, PyAlg.isFalse, len_lst, PyAlg.int]
+  cases f
+  · simp [ok_bind2, hl, PyAlg.tup, PyAlg.bool, batchTerm, encB]; rfl
+  · simp [PyAlg.tup, PyAlg.bool, batchTerm, encB]; rfl
+
+theorem gen_batch_full (s : List Val × Bool) : Gen.batch_full (V := Val) (encB s) = .ok (.bool s.2) := by
+  obtain ⟨b, f⟩ := s
+  cases f <;> simp [Gen.batch_full, PyAlg.nth, nth1_encB, PyAlg.eq, PyAlg.bool] <;> rfl
+
+theorem gen_batch_items (s : List Val × Bool) : Gen.batch_items (V := Val) (encB s) = .ok (Val.lst s.1) := by
+  simp [Gen.batch_items, PyAlg.nth, nth0_encB]; rfl
+
+/-- the three local operators of the generated stage list of `batch(n)` -/
+def genBatchScan (n : Nat) : LocalOp Val Val :=
+  scanOp (Gen.batch_accumulate (V := Val) (.int n)) (encB ([], false)) false
+    (some (fun v => match Gen.batch_terminate (V := Val) v with | .ok x => x | .error _ => .none))
+
+theorem gen_batch_stages_local (n : Nat) :
+    (Gen.batch_stages (V := Val) (.int n)).map GStage.localOp
+      = [genBatchScan n, filterOp (Gen.batch_full (V := Val)) Val.truthy, mapOp (Gen.batch_items (V := Val))] := rfl
+
+/-- … composed as a pipeline composes them: `scan | filter | map` -/
+def genBatchL (n : Nat) : LocalOp Val Val :=
+  compLocal (compLocal (genBatchScan n) (filterOp (Gen.batch_full (V := Val)) Val.truthy)) (mapOp (Gen.batch_items (V := Val)))
+
+/-- the model's `batch(n)` (the generic `batchG` with lists wrapped as values): the multiplexed side of `D.batch` -/
+def modelBatchL (n : Nat) : LocalOp Val Val := compLocal (batchG n) (mapOp (fun l => Except.ok (Val.lst l)))
+
+/-- states correspond: the model's typed scan state, encoded as the Python tuple, is the generated operator's scan state -/
+abbrev MSt := ((Option (List Val × Bool) × Unit) × Unit) × Unit
+abbrev GSt := (Option Val × Unit) × Unit
+def phiB (t : MSt) : GSt := ((t.1.1.1.map encB, ()), ())
+
+theorem getD_map_encB (s : Option (List Val × Bool)) (d : List Val × Bool) :
+    (s.map encB).getD (encB d) = encB (s.getD d) := by cases s <;> rfl
+
+theorem truthy_bool (b : Bool) : Val.truthy (.bool b) = b := rfl
+
+theorem Link_batch_sim (n : Nat) (xs : List Val) (t : MSt) :
+    runRaw (σ := GSt) (genBatchL n).next (genBatchL n).fin (phiB t) xs
+      = runRaw (σ := MSt) (modelBatchL n).next (modelBatchL n).fin t xs := by
+  apply runRaw_map_state (σ := GSt) (τ := MSt) (genBatchL n).next (genBatchL n).fin (modelBatchL n).next (modelBatchL n).fin phiB
+  · intro t x
+    obtain ⟨⟨⟨s, u1⟩, u2⟩, u3⟩ := t
+    simp only [genBatchL, genBatchScan, modelBatchL, batchG, compLocal, scanOp, scanNext, filterOp, mapOp, feedL, phiB,
+      getD_map_encB, gen_batch_accumulate, Bool.false_eq_true, if_false, gen_batch_full, truthy_bool, id]
+    cases h : (batchAcc n (s.getD ([], false)) x).2 <;>
+      simp [h, feedL, gen_batch_items, Option.map]
+  · intro t
+    obtain ⟨⟨⟨s, u1⟩, u2⟩, u3⟩ := t
+    simp only [genBatchL, genBatchScan, modelBatchL, batchG, compLocal, scanOp, scanFin, filterOp, mapOp, feedL, phiB,
+      getD_map_encB, gen_batch_terminate, Bool.false_eq_true, if_false, gen_batch_full, truthy_bool, id]
+    cases h : (batchTerm (s.getD ([], false))).2 <;>
+      simp [h, feedL, gen_batch_items]
+
+/-- **Link_batch**: for every batch size and every item sequence the stage list generated from `rxsci/data/batch.py`
+(`scan(_batch, seed=([], False), terminator=_terminate) | filter | map`, run as the model runs stage lists) emits, item by item
+and at completion, exactly what the model's `batch(n)` emits -/
+theorem Link_batch (n : Nat) (xs : List Val) :
+    (genBatchL n).runL (genBatchL n).init xs = (modelBatchL n).runL (modelBatchL n).init xs :=
+  Link_batch_sim n xs (((none, ()), ()), ())
 
 end Rx
